@@ -537,9 +537,22 @@ func runCloseScenario(sc closeSc) (obs closeObs) {
 		c.mu.Unlock()
 	}
 	book.mu.Unlock()
-	obs.gor = waitNoLibGoroutines(3 * time.Second)
-	if obs.gor != 0 {
-		obs.note += "goroutines:" + libGoroutineSummary() + ";"
+	// "when it returns every goroutine the node started has ended": a goroutine past its last statement may still be visible
+	// for an instant, so a short grace is given; anything alive after it is reported (with a note telling whether it went
+	// away later or never)
+	if obs.ret {
+		obs.gor = waitNoLibGoroutines(150 * time.Millisecond)
+		if obs.gor != 0 {
+			obs.note += "goroutines-after-close:" + libGoroutineSummary() + ";"
+			if late := waitNoLibGoroutines(3 * time.Second); late == 0 {
+				obs.note += "gone-later;"
+			}
+		}
+	} else {
+		obs.gor = waitNoLibGoroutines(3 * time.Second)
+		if obs.gor != 0 {
+			obs.note += "goroutines:" + libGoroutineSummary() + ";"
+		}
 	}
 	return obs
 }
@@ -677,6 +690,7 @@ func genC12(r *rngT, n int, tier string) {
 		default:
 			sc.delayUs = 3000 + r.Intn(150000) // into the reconnect back-off / after the traffic
 		}
+		waitNoLibGoroutines(3 * time.Second)
 		obs := runCloseScenario(sc)
 		emit(fmt.Sprintf("closecheck %s %s %s", sc.String(), obs.String(), noteTok(obs.note)), "ok")
 		out.Flush()
